@@ -41,6 +41,9 @@ TS_DEPTH = {"ATEM": 4, "AFEM": 3, "MLTEM": 3, "MLFEM": 3, "LLTEM": 4, "LLFEM": 4
 # pairs explored with additional originals (constant Extras) for re-linking: quick value
 RELINK = {"DC": 2, "AFEM": 1}
 
+IDGROUP = ["DC", "LLFEM"]
+GROUPCOPY = ["DC", "AFEM"]
+
 INV = """VIEW vw
 INVARIANT Mutual
 INVARIANT BothIds
@@ -56,6 +59,7 @@ PROPERTY CopyCopiesPartner
 PROPERTY EditIsLocal
 PROPERTY RefusedIsNoop
 PROPERTY ValidEditsAccepted
+PROPERTY GroupCopyOnce
 """
 EXPORT = """INVARIANT ExportState
 ACTION_CONSTRAINT ExportTrans
@@ -69,7 +73,7 @@ def tla_set(xs):
 
 
 def cfg(pair, depth, copies, edits, reopens, ops, modes, masks, vals, when, bad=False, devs=(), export=True,
-        extras=0):
+        extras=0, idingroup=False, ingroup=False):
     return f"""SPECIFICATION Spec
 CONSTANTS
   Pair = "{pair}"
@@ -85,6 +89,8 @@ CONSTANTS
   ValuesPerOp = {vals}
   EditWhen = "{when}"
   Extras = {extras}
+  IdInGroup = {"TRUE" if idingroup else "FALSE"}
+  InGroup = {"TRUE" if ingroup else "FALSE"}
   Deviations = {tla_set(devs)}
 {INV}{EXPORT if export else ""}CHECK_DEADLOCK FALSE
 """
@@ -102,6 +108,12 @@ def main():
                       t_modes, ["lo", "mid"], 1, "copied"),
             "te": cfg(pair, 4, 1, 2, 1, ALL_OPS, ["plain-other"], ["lo"], 2, "always", bad=True),
         }
+        if pair in IDGROUP:
+            # the A entity carries a property group that holds its id data: copies from either side, re-open
+            files["qi"] = cfg(pair, 3, 1, 0, 1, [], q_modes, ["lo"], 1, "always", idingroup=True)
+        if pair in GROUPCOPY:
+            # the originals live in a container group which is copied (same / other workspace)
+            files["qg"] = cfg(pair, 3, 1, 1, 1, ["channels"], [], ["lo"], 1, "always", ingroup=True)
         if pair in RELINK:
             # re-linking with a second A (and B): take-over, re-open, link again from either side
             files["qr"] = cfg(pair, 4, 0, 1, 1, ["channels"], ["plain-same"], ["lo"], 1, "always", extras=RELINK[pair])
@@ -121,13 +133,16 @@ NEGATIVE = [
     ("TIP1", "TipperSingleBaseMaskedCopy", ["channels"]),                # RefusedIsNoop / CopyCopiesPartner
     ("DC", "RelinkKeepsCachedPartner", []),                              # LinkSticks / BothIds
     ("AFEM", "RelinkLeavesSharedDictionary", ["channels"]),              # WriteThrough
+    ("DC", "CopyFailsOnGroupedIdData", []),                              # RefusedIsNoop / CopyCopiesPartner
+    ("AFEM", "GroupCopyDuplicatesPair", ["channels"]),                   # GroupCopyOnce
 ]
 
 
 def negatives():
     for pair, dev, ops in NEGATIVE:
         text = cfg(pair, 3, 1, 2, 1, ops, ["plain-same", "extent-same"], ["lo"], 2, "always", devs=[dev], export=False,
-                   extras=2 if dev.startswith("Relink") else 0)
+                   extras=2 if dev.startswith("Relink") else 0, idingroup=dev == "CopyFailsOnGroupedIdData",
+                   ingroup=dev == "GroupCopyDuplicatesPair")
         with open(f"{pair}_dev_{dev}.cfg", "w", encoding="ascii") as fh:
             fh.write(text)
 
